@@ -94,6 +94,7 @@ func main() {
 		genExhaustive(cl, 2)
 	}
 
+	genRepeat(cl, r.Thorough())
 	genScale(cl, r.Thorough()) // last: the long histories run after everything else (see the chunks below)
 	// every endless loop costs its time-out: once the budget of observed hangs is used up the
 	// remaining cases of hang-prone classes are dropped (deterministic: fixed chunks, fixed order)
